@@ -498,6 +498,11 @@ class Evaluator:
                         pass
                     elif isinstance(op, (ast.Is, ast.IsNot)):
                         r = (left is right) == isinstance(op, ast.Is)
+                    elif isinstance(op, (ast.In, ast.NotIn)) and isinstance(right, Obj) and right.mod != "builtins":
+                        ok_, rv = self._obj_method(right, "__contains__", [left])
+                        if not ok_:
+                            raise Undecided("membership in an object without __contains__")
+                        r = self._truth(rv) == isinstance(op, ast.In)
                     elif isinstance(op, (ast.In, ast.NotIn)) and not isinstance(right, Obj):
                         # membership as Python defines it: identity first, then the element's (or the candidate's) __eq__
                         found = False
